@@ -16,11 +16,43 @@ import sys
 import time
 
 PY = '/venv/bin/python'
+REPO = os.environ.get('SEED_REPO', '/repo')      # the checkout patches are applied to (a scratch worktree for background re-evaluation)
+VERIF = os.environ.get('SEED_VERIF', '/verif')
 
 
 def sh(cmd, cwd=None, timeout=3600, env=None):
     r = subprocess.run(cmd, cwd=cwd, shell=isinstance(cmd, str), capture_output=True, text=True, timeout=timeout, env=env)
     return r.returncode, (r.stdout + r.stderr)
+
+
+def restored(a):
+    d = a.stored.rstrip('/')
+    meta = json.load(open(os.path.join(d, 'meta.json')))
+    patch = os.path.join(d, 'patch.diff')
+    rc, out = sh('git status --porcelain', cwd=REPO)
+    if out.strip():
+        print(REPO + ' is dirty, refusing')
+        return 1
+    rc, out = sh('git apply %s' % patch, cwd=REPO)
+    if rc:
+        print('PATCH DOES NOT APPLY', d)
+        meta['applies_to_head'] = False
+        json.dump(meta, open(os.path.join(d, 'meta.json'), 'w'), indent=1)
+        return 1
+    try:
+        checks = (a.checks or ','.join(meta.get('detected_by') or [meta['property']])).split(',')
+        for c in checks:
+            t = time.time()
+            rc, out = sh(['./check', c, '--tier', a.tier], cwd=VERIF, timeout=7200, env=dict(os.environ, SUPP_REPO=REPO))
+            sigs = re.findall(r'signature: (.*)', out)
+            meta.setdefault('checks', {})[c] = {'exit': rc, 'signatures': sigs[:12], 'wall_s': round(time.time() - t, 1)}
+            print('%s check %s: exit %d  %d signatures  %.0fs' % (os.path.basename(d), c, rc, len(sigs), time.time() - t))
+    finally:
+        sh('git checkout -- .', cwd=REPO)
+    meta['applies_to_head'] = True
+    meta['detected_by'] = sorted(c for c, r in meta['checks'].items() if r['exit'] == 1)
+    json.dump(meta, open(os.path.join(d, 'meta.json'), 'w'), indent=1)
+    return 0
 
 
 def main():
@@ -31,8 +63,11 @@ def main():
     ap.add_argument('--tier', default='quick')
     ap.add_argument('--keep', action='store_true')
     ap.add_argument('--skip-scratch', action='store_true')
+    ap.add_argument('--stored', help='re-evaluate a stored seed directory (seeded/<name>): uses its patch.diff, updates its meta.json')
     a = ap.parse_args()
     prop, k = a.prop.upper(), a.k
+    if a.stored:
+        return restored(a)
     src = (os.environ.get('SEED_SRC') or '/tmp/mut_out') + '/%s' % prop
     wt = os.environ.get('SEED_WT') or '/tmp/mut/%s' % prop
     patch = os.path.join(src, 'patch%s.diff' % k)
@@ -60,20 +95,20 @@ def main():
         meta['confirmed'] = bool(ok)
         print('CONFIRMED' if ok else 'NOT CONFIRMED')
     # run checks against /repo with the patch applied
-    rc, out = sh('git status --porcelain', cwd='/repo')
+    rc, out = sh('git status --porcelain', cwd=REPO)
     if out.strip():
-        print('/repo is dirty, refusing')
+        print(REPO + ' is dirty, refusing')
         return 1
-    rc, out = sh('git apply %s' % patch, cwd='/repo')
+    rc, out = sh('git apply %s' % patch, cwd=REPO)
     if rc:
-        print('patch does not apply to /repo', out)
+        print('patch does not apply to ' + REPO, out)
         return 1
     results = {}
     try:
         checks = (a.checks or prop).split(',')
         for c in checks:
             t = time.time()
-            rc, out = sh(['./check', c, '--tier', a.tier], cwd='/verif', timeout=7200)
+            rc, out = sh(['./check', c, '--tier', a.tier], cwd=VERIF, timeout=7200, env=dict(os.environ, SUPP_REPO=REPO))
             sigs = re.findall(r'signature: (.*)', out)
             results[c] = {'exit': rc, 'signatures': sigs[:12], 'wall_s': round(time.time() - t, 1)}
             print('check %s: exit %d  %d signatures  %.0fs' % (c, rc, len(sigs), time.time() - t))
@@ -81,11 +116,11 @@ def main():
                 print('     ', s)
             meta['ran'].append('./check %s --tier %s -> exit %d' % (c, a.tier, rc))
     finally:
-        sh('git checkout -- .', cwd='/repo')
+        sh('git checkout -- .', cwd=REPO)
     meta['checks'] = results
     meta['detected_by'] = sorted(c for c, r in results.items() if r['exit'] == 1)
     if a.keep:
-        d = '/verif/seeded/%s-%s%s' % (prop, os.environ.get('SEED_TAG', ''), k)
+        d = VERIF + '/seeded/%s-%s%s' % (prop, os.environ.get('SEED_TAG', ''), k)
         os.makedirs(d, exist_ok=True)
         shutil.copy(patch, os.path.join(d, 'patch.diff'))
         shutil.copy(demo, os.path.join(d, 'demo.py'))
